@@ -166,8 +166,8 @@ func (u *UnitsDefinition) FormatShortInt(data int64) string {
 	remainder := data
 	output := ""
 	for _, multiplier := range u.getSortedMultipliersCache() {
-		base := int64(math.Floor(float64(remainder) / float64(multiplier)))
-		remainder -= base * multiplier
+		var base int64
+		base, remainder = splitUnit(remainder, multiplier)
 		output += formatNumberUnitShort(base, u.Multipliers()[multiplier], false)
 	}
 	output += formatNumberUnitShort(remainder, u.BaseUnit(), false)
@@ -183,6 +183,10 @@ func (u *UnitsDefinition) FormatShortFloat(data float64) string {
 	output := ""
 	for _, multiplier := range u.getSortedMultipliersCache() {
 		base := int64(math.Floor(remainder / float64(multiplier)))
+		if float64(base*multiplier) > remainder {
+			// The quotient was rounded up to the next whole number (amounts above 2^53); the rest must not go negative.
+			base--
+		}
 		remainder -= float64(base * multiplier)
 		output += u.Multipliers()[multiplier].FormatShortFloat(float64(base), false)
 	}
@@ -198,8 +202,8 @@ func (u *UnitsDefinition) FormatLongInt(data int64) string {
 	remainder := data
 	output := ""
 	for _, multiplier := range u.getSortedMultipliersCache() {
-		base := int64(math.Floor(float64(remainder) / float64(multiplier)))
-		remainder -= base * multiplier
+		var base int64
+		base, remainder = splitUnit(remainder, multiplier)
 		output += u.Multipliers()[multiplier].FormatLongInt(base, false)
 	}
 	output += u.BaseUnit().FormatLongInt(remainder, false)
@@ -215,11 +219,29 @@ func (u *UnitsDefinition) FormatLongFloat(data float64) string {
 	output := ""
 	for _, multiplier := range u.getSortedMultipliersCache() {
 		base := int64(math.Floor(remainder / float64(multiplier)))
+		if float64(base*multiplier) > remainder {
+			// The quotient was rounded up to the next whole number (amounts above 2^53); the rest must not go negative.
+			base--
+		}
 		remainder -= float64(base * multiplier)
 		output += u.Multipliers()[multiplier].FormatLongFloat(float64(base), false)
 	}
 	output += u.BaseUnit().FormatLongFloat(remainder, false)
 	return output
+}
+
+// splitUnit returns how many whole units of the given multiplier are in the amount (rounded down) and what is left.
+// It works on integers: converting to float64 rounds above 2^53, which made the count too large and the rest negative.
+func splitUnit(amount int64, multiplier int64) (int64, int64) {
+	if multiplier < 2 {
+		// Not a larger unit; nothing can be expressed in it.
+		return 0, amount
+	}
+	count := amount / multiplier
+	if amount%multiplier < 0 {
+		count--
+	}
+	return count, amount - count*multiplier
 }
 
 func (u *UnitsDefinition) getSortedMultipliersCache() []int64 {
